@@ -238,6 +238,34 @@ def trace(repo, cls, mod, fn, cond=False, depth=0, seen=None, aliases=None):
     return out
 
 
+def fresh_document_records(repo, rel, cn):
+    """[(qualified write method, field, re-initialised before it is filled?, module, first filling site, in function)]
+    for the fields of the writer that are mutated on a public write path (shared by C02 / C03: a document that is not
+    started afresh carries the content of the previous call into the next file)"""
+    cls = repo.cls(rel, cn)
+    mod = cls.mod
+    old = CUR_CLS[0]
+    CUR_CLS[0] = cls
+    out = []
+    try:
+        for pm in PUBLIC:
+            fn = cls.methods.get(pm)
+            if fn is None:
+                raise AnalysisError("%s.%s missing" % (cn, pm))
+            evs = trace(repo, cls, mod, fn)
+            fields = []
+            for e in evs:
+                if e.kind == "MUT" and e.what not in fields:
+                    fields.append(e.what)
+            for f in fields:
+                first = next(i for i, e in enumerate(evs) if e.kind == "MUT" and e.what == f)
+                inits = [e for e in evs[:first] if e.kind == "INIT" and e.what == f and not e.cond]
+                out.append(("%s.%s" % (cn, pm), f, bool(inits), mod, evs[first].node, evs[first].fn))
+    finally:
+        CUR_CLS[0] = old
+    return out
+
+
 def run(repo, res, tier):
     res.rule("W1-NO-ACCUMULATION", "accumulated writer fields are re-initialised before the first mutation in every public write method", 4)
     res.rule("W2-NO-AMBIENT", "shared module-level cells read while writing are first assigned from the writer's own state", 2)
